@@ -195,6 +195,35 @@ func (c *Case) Exec(t *eng.T) {
 	}
 	if out.S != subst(string(c.Want)) {
 		t.Fail("loader:output:"+c.Label, "%s renders %q, want %q (log: %v)", c.ID(), out.S, string(c.Want), logs(loaders))
+		return
+	}
+	// an entry file in the loaders' root directory: the same source compiled from a string (FromString) names the
+	// same templates - relative names are resolved from the loaders' root
+	if path.Dir(c.Main) == "/" && !c.Canary {
+		src, found := "", false
+		for _, files := range c.Loaders {
+			if s, ok := files[c.Main]; ok {
+				src, found = s, true
+				break
+			}
+		}
+		if found {
+			var tl2 []pongo2.TemplateLoader
+			for _, files := range c.Loaders {
+				tl2 = append(tl2, px.NewMemLoader(files))
+			}
+			set2 := pongo2.NewSet("c11-string", tl2...)
+			for k, v := range c.Globals {
+				set2.Globals[k] = v
+			}
+			tpl2, o2 := px.Compile(set2, src)
+			if tpl2 != nil {
+				o2 = px.Exec(tpl2, ctx)
+			}
+			if o2.Failed() || o2.S != out.S {
+				t.Fail("loader:from-string:"+c.Label, "%s: the entry file's source compiled with FromString renders %s; loaded with FromFile it renders %q", c.ID(), o2, out.S)
+			}
+		}
 	}
 }
 
@@ -500,6 +529,76 @@ func run(r *eng.Runner) {
 		}
 		for _, c := range cases {
 			r.Do(&Case{Loaders: []map[string]string{c.files}, Main: c.main, Vars: map[string]string{"rel": "part"}, Want: eng.Q(c.want), Fetch: c.fetch, Label: "same-relative-name:" + c.label})
+		}
+	}
+	// several templates of one rendering name the same parent
+	r.Group("shared-parent", "c11.case", "two (three) templates pulled into one page by include (static, lazy) or ssi parsed extend the same base, directly or through a common middle template, from the same or different directories: each renders the base with ITS OWN blocks, in both orders")
+	{
+		pull := map[string]func(n string) string{
+			"include":      func(n string) string { return `{% include "` + n + `" %}` },
+			"include-lazy": func(n string) string { return `{% include n_` + strings.ReplaceAll(n, "/", "_") + ` %}` },
+			"ssi-parsed":   func(n string) string { return `{% ssi "` + n + `" parsed %}` },
+		}
+		var pn []string
+		for k := range pull {
+			pn = append(pn, k)
+		}
+		sort.Strings(pn)
+		for _, via := range pn {
+			for _, mid := range []bool{false, true} {
+				for _, dirs := range []bool{false, true} {
+					for _, order := range [][]string{{"c1", "c2"}, {"c2", "c1"}, {"c1", "c2", "c1"}, {"c2", "c3", "c1"}} {
+						files := map[string]string{"/base": `B[{% block x %}base{% endblock %}|{% block y %}by{% endblock %}]`}
+						parent := "base"
+						fetch := []string{"/base", "/page"}
+						wantOf := map[string]string{}
+						if mid {
+							files["/mid"] = `{% extends "base" %}{% block y %}mid{% endblock %}`
+							parent = "mid"
+							fetch = append(fetch, "/mid")
+						}
+						vars := map[string]string{}
+						var page, want []string
+						for _, cn := range []string{"c1", "c2", "c3"} {
+							name, up := cn, parent
+							if dirs && cn != "c1" {
+								name, up = "d"+cn+"/"+cn, "../"+parent
+							}
+							files["/"+name] = `{% extends "` + up + `" %}{% block x %}` + cn + `{% endblock %}`
+							y := "by"
+							if mid {
+								y = "mid"
+							}
+							wantOf[cn] = "B[" + cn + "|" + y + "]"
+							vars["n_"+strings.ReplaceAll(name, "/", "_")] = name
+						}
+						used := map[string]bool{}
+						for _, cn := range order {
+							name := cn
+							if dirs && cn != "c1" {
+								name = "d" + cn + "/" + cn
+							}
+							page = append(page, pull[via](name))
+							want = append(want, wantOf[cn])
+							if !used[name] {
+								used[name] = true
+								fetch = append(fetch, "/"+name)
+							}
+						}
+						for cn := range wantOf {
+							name := cn
+							if dirs && cn != "c1" {
+								name = "d" + cn + "/" + cn
+							}
+							if !used[name] {
+								delete(files, "/"+name)
+							}
+						}
+						files["/page"] = strings.Join(page, "|")
+						r.Do(&Case{Loaders: []map[string]string{files}, Main: "/page", Vars: vars, Want: eng.Q(strings.Join(want, "|")), Fetch: fetch, Label: "shared-parent:" + via})
+					}
+				}
+			}
 		}
 	}
 	r.Group("literal-vs-computed", "c11.case", "a rooted name renders the same written as a literal and computed at run time, from every referrer location")
